@@ -269,6 +269,7 @@ class LSMTree(Entity):
         self._total_compactions: int = 0
         self._total_sstables_checked: int = 0
         self._total_bloom_saves: int = 0
+        self._compaction_running: bool = False
 
     def downstream_entities(self) -> list[Entity]:
         if self._wal is not None:
@@ -395,7 +396,9 @@ class LSMTree(Entity):
         # Check each level, L0 first (most recent)
         for level in self._levels:
             # L0: check all SSTables (may have overlapping key ranges)
-            for sstable in reversed(level):
+            # Iterate over a snapshot: this generator suspends below and a flush or
+            # compaction may add to or remove from the level list meanwhile.
+            for sstable in reversed(list(level)):
                 self._total_sstables_checked += 1
 
                 if not sstable.contains(key):
@@ -479,7 +482,9 @@ class LSMTree(Entity):
 
         # Collect from SSTables (newer levels first)
         for level in self._levels:
-            for sstable in reversed(level):
+            # Iterate over a snapshot: this generator suspends below and a flush or
+            # compaction may add to or remove from the level list meanwhile.
+            for sstable in reversed(list(level)):
                 page_reads = sstable.page_reads_for_scan(start_key, end_key)
                 if page_reads > 0:
                     yield page_reads * self._sstable_read_latency
@@ -558,7 +563,22 @@ class LSMTree(Entity):
             self._compact_sync()
 
     def _compact(self) -> Generator[float]:
-        """Run a compaction cycle."""
+        """Run a compaction cycle unless one is already in progress.
+
+        Compactions are serialized: a second cycle started during the write
+        latency of the first would select SSTables the first is about to
+        replace and later install a stale copy of their contents.
+        """
+        if self._compaction_running:
+            return
+        self._compaction_running = True
+        try:
+            yield from self._compact_once()
+        finally:
+            self._compaction_running = False
+
+    def _compact_once(self) -> Generator[float]:
+        """Run one compaction cycle."""
         source_level, sstables = self._compaction_strategy.select_compaction(self._levels)
         if not sstables:
             return
@@ -613,6 +633,8 @@ class LSMTree(Entity):
 
     def _compact_sync(self) -> None:
         """Run compaction without yielding latency."""
+        if self._compaction_running:
+            return
         source_level, sstables = self._compaction_strategy.select_compaction(self._levels)
         if not sstables:
             return
